@@ -17,6 +17,7 @@ import warnings
 
 from .. import core, enc, iso, lean
 from ..runner import Result
+from .fields_corr import fields_correspondence
 
 ID = "C18"
 LEVEL = "proof"
@@ -36,7 +37,21 @@ LEVEL_TEXT = ("Theorems over the executable model of serdes.iteritems / itervalu
               "TypeError, or the model does not answer, and TypeError at the call comes from scalars only (`scalars_raise_type`, "
               "`outside_domain`, `type_error_only_scalars`). Tied to /repo by the "
               "correspondence on generated values (same value through the real functions, consumed as `for k, v in ...`, and "
-              "through the Lean driver) and judged directly by an oracle computed from Python itself.")
+              "through the Lean driver) and judged directly by an oracle computed from Python itself. WHICH attribute names of a "
+              "structured object are its items is a second model (Model/Fields.lean, following serdes._make_fields_iterator branch by "
+              "branch over a class shape: dataclass field table with pseudo-fields, resolved MRO hints with ClassVar / KW_ONLY kinds, "
+              "own and base annotations, own and base __slots__, the instance's vars) with its own theorems (Props/Fields.lean): the "
+              "selection equals a separately written specification 'public instance fields in declaration order, inherited ones "
+              "included, class / init-only variables excluded' (`select_spec`, with the excluded slot-storage corner proved to be "
+              "needed, `select_spec_full_fails`), does not depend on __slots__ once anything is declared "
+              "(`select_ignores_slots_when_declared`), never selects a pseudo-field or a private name (`select_excludes_pseudo`, "
+              "`select_excludes_classvar`, `select_public`), includes inherited annotated fields (`select_includes_inherited`), and in "
+              "the vars() branch is a function of THIS instance only, over any sequence of instances through one memoised iterator "
+              "(`select_per_instance`, `select_all_pointwise`); four theorems `*_needed` exhibit that the implementations of seeds "
+              "C02f / C05f / C13f / C12f (slots first, unfiltered __dataclass_fields__, own annotations only, memoised first instance) "
+              "violate them. Tied to /repo by a grid of ~2400 synthesised classes (dataclass / annotated / slots-only / vars-only x "
+              "bases x private / ClassVar / InitVar / KW_ONLY x object and string annotations x instance orders) whose shapes are "
+              "extracted with Python's own introspection and whose real iteritems names are compared with the model's selection.")
 LEVEL_NOTE = ("Trusted: Lean kernel, standard axioms; model tied by correspondence. 'x is not modified' is definitional in the model "
               "(a function of the value) and therefore not claimed as a theorem: it is observed on the real code by the oracle "
               "(structural snapshot before/after; one-shot iterators are checked for full, exact consumption through a tee). "
@@ -46,7 +61,7 @@ LEVEL_NOTE = ("Trusted: Lean kernel, standard axioms; model tied by corresponden
               "assignment order.")
 TECHNIQUE = "Lean 4 theorems (specification equality by cases + list inductions on enumerate); differential correspondence; independent Python oracle"
 DESIGN_REF = "DESIGN.md §5 C18"
-MODULES = ["TypelibModel.Props.C18"]
+MODULES = ["TypelibModel.Props.C18", "TypelibModel.Props.Fields"]
 TABLES = False
 RULE = ("dict / OrderedDict / MappingProxyType / custom Mapping / dict subclass; instances of dataclasses (plain, slots, frozen, with "
         "ClassVar / InitVar / kw_only), NamedTuples (incl. first field 'ab' or (1, 2)) and collections.namedtuple, TypedDict "
@@ -64,7 +79,8 @@ RULE = ("dict / OrderedDict / MappingProxyType / custom Mapping / dict subclass;
 ASSUMPTIONS = ["the consumer of iteritems unpacks each item as `k, v = item` (this is how the library itself consumes it)",
                "the fields of a slots-only class are the names of its own __slots__ tuple, all public ones assigned; the fields of a "
                "vars-only class are the keys of vars(obj) (see EXCLUDED for what lies beyond)"]
-TRUSTED = ["harness encoders/generators", "hand-written model tied by correspondence"]
+TRUSTED = ["harness encoders/generators", "hand-written model tied by correspondence",
+           "harness/props/fields_corr.py (class grid, shape extraction)", "lean/TypelibModel/Drv/Fields.lean (driver glue)"]
 EXCLUDED = ("slots-only classes outside the assumption, where the library does not yield the public attributes that are set: a public "
             "slot left unassigned (AttributeError when the item is reached), __slots__ inherited from a base class (only the most "
             "derived __slots__ is read), private slots only or __slots__ = () (TypeError from vars()), __slots__ given as one string, "
@@ -992,6 +1008,7 @@ def explore(ctx):
                                      "real": {"iteritems": _clip(o["items"]), "itervalues": _clip(o["values"])}})
             elif not d.get("noracle"):
                 res.count("oracle:ok")
+    fields_correspondence(res)   # field selection of _make_fields_iterator: real code <-> Model/Fields.lean
     return res
 
 
